@@ -266,6 +266,23 @@ pub fn rec_views(args: &Args) {
             }
         }
     }
+    // two and three stored values under the options the typed getters read (possible through the raw
+    // calls and the decoder): which value a getter looks at, and what it does when that one is unusable
+    let raws: [&[u8]; 10] = [&[], &[0], &[1], &[50], &[0, 50], &[1, 0], &[255, 255], &[1, 2, 3], &[0, 0, 50], &[1, 2, 3, 4, 5]];
+    for opt in [CoapOption::ContentFormat, CoapOption::Observe, CoapOption::Accept] {
+        for a in raws {
+            for b in raws {
+                let mut p = Packet::new();
+                p.add_option(opt, a.to_vec());
+                p.add_option(opt, b.to_vec());
+                ev_views(&mut out, &p);
+                if a.len() + b.len() == 3 {
+                    p.add_option(opt, vec![41]);
+                    ev_views(&mut out, &p);
+                }
+            }
+        }
+    }
     for id in [0u16, 40, 41, 50, 60, 110, 255, 256, 11542, 11543, 65535, 1, 15, 10003] {
         let mut p = Packet::new();
         p.add_option(CoapOption::ContentFormat, coap_lite::option_value::OptionValueU16(id).into());
